@@ -9,7 +9,7 @@ EL   = {"k":"tocsv"} | {"k":"write","outdir":s,"defname":s,"eu":b,"ow":b}
      | {"k":"render","def":s,"templates":[s,…],"sel":null|SEL} | {"k":"png","format":s,"ow":b}
      | {"k":"pdf","ow":b,"sched":[[finishAt,rc],…]} | {"k":"h2g"} | {"k":"iterbins","bins":[kind,…]}
      | {"k":"mapbins","bins":[kind,…],"inner":CELLINNER} | {"k":"runif","sel":SEL,"inner":INNER}
-     | {"k":"mapgroup","inner":INNER}
+     | {"k":"mapgroup","inner":INNER} | {"k":"pipe","stages":[EL,…]} (Sequence of the elements above except "pdf")
 SEL  = {"cls":name} | {"key":s} | {"or":[SEL,…]} | {"and":[SEL,…]} | {"const":b}
 INNER = "id"|"dup"|"drop"|"number"|"first"|"count"|"raise"|"yieldraise"|"last"|{"write":EL}
 CELLINNER = "id"|"dup"|"drop"|"dupfirst"|"raise"|"yieldraise"|"ctx"
@@ -353,6 +353,41 @@ def pdfJson (r : PdfRun) : Json :=
 
 def itemList? (j : Json) : Option (List Item) := (arr? j).bind (fun a => a.toList.mapM toItem)
 
+def liftW (f : FS → Item → Step FS Item) : World → Item → Step World Item :=
+  liftFS World.fs (fun w fs => { w with fs := fs }) f
+
+/-- one stage of a pipeline: its loop body and its selection predicate -/
+def stageOf (el : Json) : Option ((World → Item → Step World Item) × (Item → Bool)) :=
+  match str? (getD el "k") with
+  | some "tocsv" => some (toCSVStep, toCSVSel)
+  | some "write" =>
+    match str? (getD el "outdir"), str? (getD el "defname"), bool? (getD el "eu"), bool? (getD el "ow") with
+    | some od, some dn, some eu, some ow => some (liftW (writeStep ⟨od, dn, eu, ow⟩), writeSel)
+    | _, _, _, _ => none
+  | some "render" =>
+    let selJ := getD el "sel"
+    let sel : Option (Option (Item → Bool)) :=
+      if selJ.isNull then some none else (toSel selJ).map (fun s => some (evalSel s))
+    match str? (getD el "def"), (arr? (getD el "templates")).bind (fun a => a.toList.mapM str?), sel with
+    | some d, some ts, some sel => some (renderStep ⟨d, ts, sel⟩, renderSel ⟨d, ts, sel⟩)
+    | _, _, _ => none
+  | some "png" =>
+    match str? (getD el "format"), bool? (getD el "ow") with
+    | some f, some ow => some (liftW (pngStep ⟨f, ow⟩), pngSel)
+    | _, _ => none
+  | some "h2g" => some (histToGraphStep, histToGraphSel)
+  | some "iterbins" => (binSel (getD el "bins")).map (fun sb => (iterateBinsStep sb, iterateBinsSel sb))
+  | some "mapbins" =>
+    match binSel (getD el "bins"), cellInnerOf (getD el "inner") with
+    | some sb, some inner => some (mapBinsStep sb inner, mapBinsSel sb)
+    | _, _ => none
+  | some "runif" =>
+    match toSel (getD el "sel"), innerOf (getD el "inner") with
+    | some s, some inner => some (runIfStep (evalSel s) inner, evalSel s)
+    | _, _ => none
+  | some "mapgroup" => (innerOf (getD el "inner")).map (fun inner => (mapGroupStep inner, mapGroupSel))
+  | _ => none
+
 def handle (j : Json) : Json :=
   let el := getD j "el"
   match toFS (getD j "fs"), itemList? (getD j "A"), itemList? (getD j "B"),
@@ -400,6 +435,11 @@ def handle (j : Json) : Json :=
       match innerOf (getD el "inner") with
       | some inner => both (mapGroupRun inner) mapGroupSel World.fs w0 p A B
       | none => err "bad mapgroup spec"
+    | some "pipe" =>
+      match (arr? (getD el "stages")).bind (fun a => a.toList.mapM stageOf) with
+      | some stages =>
+        both (pipeRun (stages.map (·.1))) (fun v => stages.any (fun st => st.2 v)) World.fs w0 p A B
+      | none => err "bad pipe spec"
     | _ => err "unknown element"
   | _, _, _, _ => err "bad fs, A, B or pat"
 
